@@ -248,7 +248,7 @@ pub fn property() -> Property {
             name: "descriptions",
             rule: "see property rule",
             cases: (1_800_000, 5_000_000),
-            fuzz_decode: None,
+            fuzz_decode: Some(crate::fuzzdec::c20_case),
             strategy,
             check,
             required_classes: &["complete", "first", "first-compared-with-encap", "intermediate", "end"],
